@@ -294,4 +294,11 @@ def mar (env : Env) (L : Leaves) : Nat → Ty → Val → R Val
           | .ok kw => .ok (.dict (kw.map fun p => (.str p.1, p.2)))
     | .wrap _ t' => mar env L n t' v
 
+/-- Boolean comparison of outcomes (for `decide`-checked examples: the kernel evaluates it, whereas
+    `rfl` on large model terms goes through the elaborator's much slower unifier). -/
+def resEq : R Val → R Val → Bool
+  | .ok a, .ok b => a == b
+  | .error e, .error f => e == f
+  | _, _ => false
+
 end Typelib
